@@ -137,7 +137,9 @@ pub struct Director {
 }
 
 fn holds_read(p: &str) -> bool {
-    matches!(p, "poll:enter" | "poll:locked" | "poll:registered" | "waker:clone")
+    // not "waker:clone": with the async-lock flavour tokio clones the waker of a task that is *waiting*
+    // for the lock, which holds nothing
+    matches!(p, "poll:enter" | "poll:locked" | "poll:registered")
 }
 
 impl Director {
